@@ -34,6 +34,29 @@ def sanitizer_chain(t):
     return out
 
 
+def boundary_arguments(ctx, rule):
+    """join_runs(events, values) and remove_empty_intervals(events, values, ..) work on the n + 1 run *boundaries* (leading 0
+    included) of n values: handing them the n run ends / starts deletes the wrong boundary of every merged pair"""
+    what = "the boundary cleaners receive the n+1 run boundaries (events), not the n run ends or starts"
+    seen = 0
+    for q, f in sorted(ctx.program.funcs.items()):
+        if not q.startswith("runlengtharray."):
+            continue
+        if not any(isinstance(x, ast.Attribute) and x.attr in ("join_runs", "remove_empty_intervals") for x in ast.walk(f.node)):
+            continue
+        fa = ctx.fa(f)
+        for n, c in find_calls(fa, lambda c: c.a[0].k == "attr" and c.a[0].a[1] in ("join_runs", "remove_empty_intervals") and c.a[1]):
+            first = c.a[1][0]
+            if f.cls is not None and f.cls.qual.endswith("RunLength2dArray") or (c.a[0].a[0].k == "attr" and c.a[0].a[0].a[1] in ("_indices", "_values")):
+                continue          # the 2-D classes' own join_runs has another signature
+            seen += 1
+            chains = [attr_chain(a) for a in alts(first)]
+            bad = [ch for ch in chains if ch and ch[-1] in ("_ends", "ends", "_starts", "starts")]
+            ctx.decide(rule, f, what, False if bad else True, "`%s` passes `%s`, which has one entry per run" % (c, ".".join(bad[0]) if bad else ""), node=c.node,
+                       key="boundaries:%s" % c.a[0].a[1], engine="E5")
+    return seen
+
+
 def canonical_construction(ctx, rule, f, promise_join=True):
     """every constructor call in f builds from values that passed remove_empty_intervals and then join_runs
     (join last: dropping an empty run between two equal runs creates an adjacent-equal pair)"""
